@@ -239,7 +239,12 @@ class Fn:
 
     @property
     def is_lib(self):
-        return self.q.startswith("trompeloeil::")
+        """library code: namespace trompeloeil AND written in /repo/include (user-provided customisation
+        points such as create_custom_recursive_mutex or printer<T> specialisations are user code)"""
+        if not self.q.startswith("trompeloeil::"):
+            return False
+        loc = self.rec.get("pat") or self.rec.get("loc") or ""
+        return loc.startswith(INCLUDE) or not loc
 
     @property
     def pat(self):
